@@ -22,6 +22,8 @@ const modPath = "github.com/mosaicnetworks/babble"
 // Prog is one loaded configuration of the repository: type-checked packages,
 // SSA form and a VTA call graph.
 type Prog struct {
+	inlineMemo map[calleeKey][]uint32 // per top-level pathMasks call: masks a helper's success returns may carry
+	inlining map[*ssa.Function]bool // helpers currently being looked into by the path engine (recursion guard)
 	Dir   string
 	Tags  string
 	Fset  *token.FileSet
